@@ -91,6 +91,14 @@ def main():
     # a panic below the chain manager must surface as a Go panic, not end the simulator process
     rewrite("chain/recover.go", [(r"os\.Exit\(10\)", 'panic(fmt.Sprint("verif: RecoverExit: ", r))', 1),
                                  (r'\n\t"os"\n', '\n', 1)])
+    # the signature verifier is asynchronous: count requests / finished collections / collected results
+    # so that the simulator can wait for its quiescence without consuming anything
+    rewrite("chain/signVerifier.go", [
+        (r"(?m)^(type SignVerifier struct \{)$", r"\1\n\tverifReq, verifDone, verifTaken atomic.Int64", 1),
+        (r"(?m)^(func \(sv \*SignVerifier\) RequestVerifyTxs\(txlist \*types\.TxList\) \{)$", r"\1\n\tsv.verifReq.Add(1)", 1),
+        (r"(?m)^(\s*)(sv\.resultCh <- &VerifyResult\{.*\})$", r"\1sv.verifDone.Add(1)\n\1\2", 2),
+        (r"(?m)^(\s*)(case res := <-sv\.resultCh:)$", r"\1\2\n\1\tsv.verifTaken.Add(1)", 1),
+    ], '"sync/atomic"')
     # the trie starts one goroutine per sibling subtree: let the simulator choose the order
     simgo = 'simgo "github.com/aergoio/aergo/v2/zz_verif/simgo"'
     rewrite("pkg/trie/trie.go", [
